@@ -256,6 +256,10 @@ pub fn base_world(rng: &mut Rng, o: &BaseOpts, mix: &Mix, net: NetSpec) -> (Spec
 fn add_final_probes(spec: &mut Spec, cfg: &Cfg, rng: &mut Rng) {
     // capacity probe: pool_size simultaneous transactions per server must all be served
     let size = cfg.pools[0].users[0].pool_size;
+    // (Dead idle server connections left behind by server-side drops are flushed before this
+    // phase by bb8's own reaper: fault runs use a short idle_timeout and a calm period longer
+    // than idle_timeout + reaper period, which costs nothing in virtual time.)
+    let warm_last = String::from("main_done");
     let mut id = 900;
     for _ in 0..size {
         id += 1;
@@ -271,6 +275,7 @@ fn add_final_probes(spec: &mut Spec, cfg: &Cfg, rng: &mut Rng) {
         let mut c = client(id, "app", "db", "apppw", 0, p.steps);
         c.phase = "final".into();
         c.role = "probe".into();
+        c.start = When::After { ev: warm_last.clone(), delay_ms: 5 };
         spec.clients.push(c);
     }
     let _ = rng;
@@ -294,7 +299,7 @@ pub fn c01(rng: &mut Rng, thorough: bool, idx: u64) -> Spec {
         }
     }
     let _ = cfg;
-    spec.oracles = vec!["c01_isolation".into(), "liveness".into(), "no_panic".into()];
+    spec.oracles = vec!["c01_isolation".into(), "liveness".into()];
     spec
 }
 
@@ -338,7 +343,7 @@ pub fn c03(rng: &mut Rng, thorough: bool, idx: u64) -> Spec {
     spec.family = "relay".into();
     spec.params.insert("all_forwarded".into(), serde_json::json!(true));
     spec.params.insert("all_tagged".into(), serde_json::json!(true));
-    spec.oracles = vec!["c03_relay".into(), "liveness".into(), "no_panic".into()];
+    spec.oracles = vec!["c03_relay".into(), "liveness".into()];
     spec
 }
 
@@ -359,15 +364,43 @@ pub fn c04(rng: &mut Rng, thorough: bool, idx: u64) -> Spec {
             spec.params.insert("server_faults".into(), serde_json::json!(true));
         }
         // sometimes a connect timeout shorter than the hold times, so that waiters get a pool error
+        // (never shorter than the time a fresh server connection needs with this network: that
+        // would make "pool error" the legitimate answer to everybody, including the probe)
         if rng.chance(0.4) {
             let mut cfg2 = cfg.clone();
-            cfg2.set("connect_timeout", rng.range(20, 200));
+            cfg2.set("connect_timeout", rng.range(400, 900));
             spec.config_toml = cfg2.render();
+            // long holders, so that waiters run into the timeout
+            for c in spec.clients.iter_mut() {
+                if rng.chance(0.4) {
+                    let id = c.id;
+                    let hold = rng.range(500, 1500);
+                    let mut pre = vec![
+                        Step::Send { msgs: vec![FrontMsg::Q { sql: format!("BEGIN /* c{}.t90.s1 */", id) }], rfq: None, cut: None, abort: false, txn: 90 },
+                        Step::Think { ms: hold },
+                        Step::Send { msgs: vec![FrontMsg::Q { sql: format!("COMMIT /* c{}.t90.s2 */", id) }], rfq: None, cut: None, abort: false, txn: 90 },
+                    ];
+                    pre.extend(c.steps.drain(..));
+                    c.steps = pre;
+                }
+            }
         }
     }
     spec.end.calm_ms = 500;
+    if faults {
+        // let bb8's reaper close every idle (possibly dead) server connection before the probe
+        let mut cfg2 = cfg.clone();
+        for l in spec.config_toml.lines() {
+            if let Some(v) = l.strip_prefix("connect_timeout = ") {
+                cfg2.set("connect_timeout", v);
+            }
+        }
+        cfg2.set("idle_timeout", 3000);
+        spec.config_toml = cfg2.render();
+        spec.end.calm_ms = 20_000;
+    }
     add_final_probes(&mut spec, &cfg, rng);
-    spec.oracles = vec!["c04_bound".into(), "c04_capacity".into(), "liveness".into(), "no_panic".into()];
+    spec.oracles = vec!["c04_bound".into(), "c04_capacity".into(), "liveness".into()];
     spec
 }
 
@@ -460,7 +493,7 @@ pub fn c12(rng: &mut Rng, thorough: bool, idx: u64) -> Spec {
     let mut spec = Spec { config_toml: cfg.render(), hosts: cfg.hosts(), net, clients, end: EndSpec { deadline_ms: 900_000, calm_ms: 100 }, ..Default::default() };
     spec.params = params_from(&cfg);
     spec.family = if hostile { "params_hostile_values".into() } else { "params".into() };
-    spec.oracles = vec!["c12_params".into(), "liveness".into(), "no_panic".into()];
+    spec.oracles = vec!["c12_params".into(), "liveness".into()];
     spec
 }
 
@@ -707,6 +740,6 @@ pub fn c02(rng: &mut Rng, thorough: bool, idx: u64) -> Spec {
     spec.params.insert("cache_on".into(), serde_json::json!(cfg.pools[0].cache_size > 0));
     spec.params.insert("stop".into(), serde_json::json!(stop));
     spec.family = format!("handoff/{}", stop);
-    spec.oracles = vec!["c02_clean_handoff".into(), "liveness".into(), "no_panic".into()];
+    spec.oracles = vec!["c02_clean_handoff".into(), "liveness".into()];
     spec
 }
